@@ -110,6 +110,9 @@ var fwdHeaderSets = []http.Header{
 	{"X-Real-Ip": {"10.1.2.3"}},
 	{"X-Forwarded-For": {"10.1.2.3, 8.8.8.8"}, "X-Real-Ip": {"10.9.9.9"}, "X-Proxyuser-Ip": {"10.1.1.1"}, "X-Envoy-External-Address": {"10.2.2.2"}, "Cf-Connecting-Ip": {"10.3.3.3"}},
 	{"X-Forwarded-Host": {"sub.cookie.example.com"}, "X-Forwarded-Proto": {"https"}, "X-Forwarded-Uri": {"/foo/b.js?x=1"}, "X-Real-Ip": {"10.0.0.9"}},
+	{"X-Forwarded-Host": {"login.cookie.example.com, proxy.example.com"}},
+	{"X-Forwarded-Host": {"allowed.example.net,evil.example.org"}, "X-Forwarded-Proto": {"https, http"}, "X-Forwarded-Uri": {"/foo/a.js, /x"}},
+	{"X-Forwarded-For": {"127.0.0.1"}, "X-Real-Ip": {"127.0.0.1"}},
 }
 
 // fwdRandomSets: header sets drawn from every forwarding-style header name in common use (also ones the proxy
@@ -120,7 +123,7 @@ func fwdRandomSets(r *rng, n int) []http.Header {
 		"X-Forwarded-Scheme", "X-Forwarded-Ssl", "Front-End-Https", "X-Url-Scheme", "X-Forwarded-Server", "Via", "True-Client-Ip", "X-Client-Ip", "X-Cluster-Client-Ip",
 		"X-Original-Forwarded-For", "X-Rewrite-Url", "X-Forwarded-Method", "X-Forwarded-Email", "X-Forwarded-User", "X-Scheme", "X-Host"} // (X-Auth-Request-Redirect is not a forwarding header: it is a validated landing-page candidate in every mode)
 	vals := []string{"evil.example.org", "allowed.example.net", "sub.cookie.example.com", "app.example.com", "https", "http", "on", "/foo/a.js", "/foo/b.js?x=1", "/oauth2/sign_in",
-		"/oauth2/auth", "/ping", "/app/x", "10.1.2.3", "10.1.2.3, 8.8.8.8", "8.8.8.8, 10.1.2.3", "10.0.0.9:4711", "::ffff:10.1.2.3", "for=10.1.2.3;proto=https;host=evil.example.org",
+		"/oauth2/auth", "/ping", "/app/x", "10.1.2.3", "10.1.2.3, 8.8.8.8", "login.cookie.example.com, proxy.example.com", "127.0.0.1", "8.8.8.8, 10.1.2.3", "10.0.0.9:4711", "::ffff:10.1.2.3", "for=10.1.2.3;proto=https;host=evil.example.org",
 		"GET", "POST", "OPTIONS", "443", "/prefix", "https://evil.example.org/x", "//evil.example.org", "admin@example.com", "1.1 proxy"}
 	out := make([]http.Header, 0, n)
 	for i := 0; i < n; i++ {
@@ -157,6 +160,13 @@ func init() {
 			w.RealClientIPHeader = "X-Forwarded-For"
 			w.ForceHTTPS = true
 			cfgs = append(cfgs, w)
+			// reverse-proxy OFF with an explicitly configured (non-default) client-IP header: the header still counts for nothing
+			for _, h := range []string{"X-Forwarded-For", "CF-Connecting-IP"} {
+				v := base
+				v.RealClientIPHeader = h
+				v.TrustedIPs = []string{"10.0.0.0/8", "127.0.0.1"}
+				cfgs = append(cfgs, v)
+			}
 			if c.scale > 1 {
 				// thorough: every supported real-IP header, API routes, per-request CSRF, no cookie domains
 				for _, h := range []string{"X-ProxyUser-IP", "X-Envoy-External-Address", "CF-Connecting-IP"} {
